@@ -43,6 +43,12 @@ pub fn parse_block2(data: &[u8]) -> PatchIndexResult<(u8, Vec<PatchIndexEntry>)>
 
     let entry_count = u32::from_le_bytes([data[0], data[1], data[2], data[3]]) as usize;
     let key_size = data[4];
+    if key_size > 16 {
+        return Err(PatchIndexError::InvalidKeySize {
+            block_type: BLOCK_TYPE_ENTRIES,
+            key_size,
+        });
+    }
     let esize = entry_size(key_size);
 
     let needed = 5 + entry_count * esize;
@@ -104,6 +110,12 @@ pub fn parse_block8(data: &[u8]) -> PatchIndexResult<(u8, Vec<PatchIndexEntry>)>
     }
 
     let key_size = data[1];
+    if key_size > 16 {
+        return Err(PatchIndexError::InvalidKeySize {
+            block_type: BLOCK_TYPE_EXTENDED,
+            key_size,
+        });
+    }
     let data_offset = u16::from_le_bytes([data[2], data[3]]) as usize;
     let entry_count = u32::from_le_bytes([data[4], data[5], data[6], data[7]]) as usize;
     let esize = entry_size(key_size);
@@ -196,6 +208,21 @@ mod tests {
         let (ks, entries) = parse_block2(&data).unwrap();
         assert_eq!(ks, 16);
         assert!(entries.is_empty());
+    }
+
+    #[test]
+    fn test_key_size_above_16_is_an_error() {
+        // one entry with key_size 128 and enough bytes behind it: used to panic
+        // while copying 128 key bytes into a 16-byte array
+        let mut data = Vec::new();
+        data.extend_from_slice(&1u32.to_le_bytes());
+        data.push(128);
+        data.resize(5 + entry_size(128), 0);
+        assert!(matches!(
+            parse_block2(&data),
+            Err(PatchIndexError::InvalidKeySize { key_size: 128, .. })
+        ));
+        assert!(PatchIndexEntry::parse(&data[5..], 128).is_none());
     }
 
     #[test]
